@@ -28,7 +28,7 @@ PROPERTY = 'C13'
 ASSUMPTIONS = [
     'reading: exact type registered for the operation -> its handler (explicit, else auto-discovered at registration); otherwise a minimal '
     'non-exact registered type of which the object is an instance; real ancestors (in the MRO, other than object) take precedence over '
-    'glom\'s virtual duck types; among incomparable candidates any minimal one is admissible',
+    'glom\'s virtual duck types; among several real ancestors the first one in the MRO of the object\'s type is the nearest',
     'the module-level registry is exercised in a forked child per history; histories on it are shorter',
 ]
 
@@ -87,6 +87,33 @@ class XD(XC, XB):
 
 class XE(XD):
     pass
+
+
+class Audited:
+    """a plain mixin that gets registered; the builtin container comes FIRST in the MRO of SettingsD / RowsL"""
+    pass
+
+
+class SettingsD(dict, Audited):
+    def __init__(self):
+        dict.__init__(self, x='item-x')
+
+
+class AuditedD(Audited, dict):
+    def __init__(self):
+        dict.__init__(self, x='item-x')
+
+
+class RowsL(list, Audited):
+    __slots__ = ()
+
+    def __init__(self):
+        list.__init__(self, ['e0', 'e1'])
+
+
+class TagStr(str):
+    """a scalar subclass that gets registered (its handlers must be used in every position, wildcards included)"""
+    __slots__ = ()
 
 
 class Mix:
@@ -163,11 +190,13 @@ FAMILIES = {
     'slots': [Sl, Sl2],
     'dictsub': [MyDict, MyDictS, MyOD],
     'seqsub': [MyList, MyTuple],
+    'container-first-mixin': [Audited, SettingsD, AuditedD, RowsL],
+    'scalar-subclass': [TagStr],
 }
 CLS = {c.__name__: c for fam in FAMILIES.values() for c in fam}
 REGISTRABLE = {   # which classes of a family get registered (instances of ALL classes are observed)
     'chain': ['A', 'B', 'C'], 'diamond': ['DA', 'DB', 'DC'], 'diamond-bottom': ['XD', 'XB', 'XC'], 'mixin': ['Mix', 'MA'], 'iterable': ['It'], 'slots': ['Sl'],
-    'dictsub': ['MyDict', 'MyDictS'], 'seqsub': ['MyList'],
+    'dictsub': ['MyDict', 'MyDictS'], 'seqsub': ['MyList'], 'container-first-mixin': ['Audited'], 'scalar-subclass': ['TagStr'],
 }
 OPSETS = {'all': OPS, 'get': ['get'], 'itk': ['iterate', 'keys'], 'mut': ['assign', 'delete']}
 # registrations that switch an operation OFF for a type (handler False)
@@ -263,7 +292,7 @@ BUILTIN = [   # (name, isinstance test, is real class or virtual, {op: behaviour
     ('tuple', lambda o: isinstance(o, tuple), tuple, {'get': 'SEQGET', 'iterate': 'ITER', 'assign': False, 'delete': False}),
     ('OrderedDict', lambda o: isinstance(o, OrderedDict), OrderedDict,
      {'get': 'GETITEM', 'iterate': 'ITER', 'keys': 'DICTKEYS', 'assign': 'SETITEM', 'delete': 'DELITEM'}),
-    ('_AbstractIterable', lambda o: callable(getattr(type(o), '__iter__', None)) and not isinstance(o, (str, bytes)), None,
+    ('_AbstractIterable', lambda o: callable(getattr(type(o), '__iter__', None)) and type(o) not in (str, bytes), None,     # the exact types str / bytes only
      {'get': 'GETATTR', 'iterate': 'ITER', 'assign': 'SETATTR', 'delete': 'DELATTR'}),
     ('_ObjStyleKeys', lambda o: hasattr(o, '__dict__') and hasattr(o.__dict__, 'keys'), None,
      {'get': 'GETATTR', 'iterate': False, 'keys': 'OBJKEYS', 'assign': 'SETATTR', 'delete': 'DELATTR'}),
@@ -327,8 +356,9 @@ def model_lookup(regs, with_defaults, ops_available, op, o):
         return {False}
     reals = [c for c in cands if c[1] and c[0] is not object]
     if reals:
-        minimal = [c for c in reals if not any(d is not c and isinstance(d[0], type) and issubclass(d[0], c[0]) and d[0] is not c[0] for d in reals)]
-        return {c[2] for c in minimal}
+        # the nearest one: first in the method resolution order of the object's type (which is also a minimal element)
+        nearest = min(reals, key=lambda c: Tcls.__mro__.index(c[0]))
+        return {nearest[2]}
     # only object and duck types: any of them that is not shadowed by a strictly more specific real class
     return {c[2] for c in cands if not (c[0] is object and len(cands) > 1)} or {c[2] for c in cands}
 
